@@ -589,6 +589,30 @@ func genC12(e *emitter, r *rng, thorough bool) {
 			e.emit("recover.bads", "compact.recover "+hx(y)+" "+hx(h))
 		}
 	}
+	// hashes whose integer is 0 mod N (e = 0): the two recovery candidates are Q and -Q, which share X, so only a
+	// comparison of BOTH coordinates picks the right recovery id; plus hashes around N and short/long hashes
+	{
+		nb := pad32(curveN.Bytes())
+		zeroish := [][]byte{make([]byte, 32), {}, make([]byte, 20), make([]byte, 64), nb, append(append([]byte{}, nb...), r.bytes(8)...),
+			pad32(new(big.Int).Add(curveN, one).Bytes()), pad32(new(big.Int).Sub(curveN, one).Bytes()), pad32(one.Bytes())}
+		var ds []*big.Int
+		for d := int64(1); d <= 12; d++ {
+			ds = append(ds, big.NewInt(d))
+		}
+		ds = append(ds, keys...)
+		for _, d := range ds {
+			for hi, hh := range zeroish {
+				c := []string{"0", "1"}[(hi+int(d.Int64()&1))%2]
+				e.emit("sign.e0", "compact.sign "+nhx(d)+" "+hx(hh)+" "+c)
+				if out, err := bec.SignCompact(bec.S256(), privOf(d), hh, c == "1"); err == nil {
+					e.emit("recover.e0", "compact.recover "+hx(out)+" "+hx(hh))
+					x := append([]byte{}, out...)
+					x[0] = ((x[0] - 27) ^ 1) + 27 // the other parity: must recover -Q (or fail), never Q
+					e.emit("recover.e0.flip", "compact.recover "+hx(x)+" "+hx(hh))
+				}
+			}
+		}
+	}
 	h := r.bytes(32)
 	mk := func(hb byte, rr, ss *big.Int) []byte {
 		return append(append([]byte{hb}, pad32(rr.Bytes())...), pad32(ss.Bytes())...)
@@ -724,6 +748,20 @@ func genC14(e *emitter, r *rng, thorough bool) {
 						e.emit("wif.dec.badmarker", "wif.dec "+hx([]byte(base58.Encode(x))))
 					}
 				}
+			}
+		}
+	}
+	// bodies of 33/34/35 bytes followed by the checksum of EVERY prefix of the body (a decoder that picks the
+	// checksummed range from a flag it derived itself accepts some of these), for each marker class
+	for _, mk := range []byte{0, 1, 2, 0x80, 0xff, byte(r.intn(256))} {
+		for _, bl := range []int{33, 34, 35} {
+			body := append([]byte{0x80}, r.bytes(32)...)
+			for len(body) < bl {
+				body = append(body, mk)
+			}
+			for pl := 30; pl <= bl; pl++ {
+				x := append(append([]byte{}, body...), crypto.Sha256d(body[:pl])[:4]...)
+				e.emit(fmt.Sprintf("wif.dec.prefixck%d", bl), "wif.dec "+hx([]byte(base58.Encode(x))))
 			}
 		}
 	}
